@@ -24,8 +24,9 @@ TRIAGE = [
   'native ASan harness: dtw_dba_ptrs with t=10, lengths={10,6}, window=1: heap-buffer-overflow (round 0)'),
  ('F38', lambda c: c['rule'] == 'R-SHD' and 'affinity' in c['function'],
   'dtw.warping_paths_affinity_fast(s1, s2, psi=2, ...) returns -inf where dtw.warping_paths_affinity returns 10.34'),
- ('F16', lambda c: c['rule'] == 'R-DUAL',
-  'wps_negativize(p, wps, .., 2,6,2,6, True) then wps_positivize(same range): 11 cells stay negative'),
+ ('F54', lambda c: c['rule'] == 'R-PSI' and c['construct_key'] == 'marked end run',
+  'end relaxation: dtw.warping_path_fast(s1, s2, psi=(0,2,0,0)) with s1=[.44,.33,1.49,-.21,.31], s2=[-.85,-2.55,.65,.86,-.74,2.27,-1.45,.05] returns a path ending at (3, 6) (not in the last '
+  'column) with cost 3.7042 while the distance is 3.7127; 556 of 1337 random end-psi configurations (C back-tracker), 492 with dtw.best_path on the Python matrix'),
  ('F42', lambda c: c['rule'] == 'R-DOM' and 'affinity penalty' in c['construct_key'],
   'warping_paths_affinity(penalty=0.1) = 10.343 (Python) vs 11.783 (C) = Python with penalty 0.01'),
  ('F45', lambda c: c['rule'] == 'R-MAP' and 'region C map' in c['construct_key'] and 'expand' in c['function'],
